@@ -91,17 +91,18 @@ class ConstFeaturesCalculator(FeaturesCalculator):
 
     @property
     def features(self) -> torch.Tensor:
-        return cast(torch.Tensor, cast(nn.Module, self.mod).feat_calc_const)
+        return cast(torch.Tensor, getattr(self.mod, self.prefix + 'feat_calc_const'))
 
     @property
     def features_mask(self) -> torch.Tensor:
-        return cast(torch.Tensor, cast(nn.Module, self.mod).feat_calc_mask)
+        return cast(torch.Tensor, getattr(self.mod, self.prefix + 'feat_calc_mask'))
 
     def register(self, mod: nn.Module, prefix: str = ""):
         if self.mod is None:
             self.mod = mod
-            mod.register_buffer('feat_calc_const', self.const)
-            mod.register_buffer('feat_calc_mask', self.mask)
+            self.prefix = prefix
+            mod.register_buffer(prefix + 'feat_calc_const', self.const)
+            mod.register_buffer(prefix + 'feat_calc_mask', self.mask)
 
 
 class ModAttrFeaturesCalculator(FeaturesCalculator):
@@ -155,7 +156,7 @@ class FlattenFeaturesCalculator(FeaturesCalculator):
 
     @property
     def features(self) -> torch.Tensor:
-        mul = cast(nn.Module, self.mod).feat_calc_multiplier
+        mul = getattr(self.mod, self.prefix + 'feat_calc_multiplier')
         return mul * self.prev.features
 
     @property
@@ -163,7 +164,7 @@ class FlattenFeaturesCalculator(FeaturesCalculator):
         prev_mask = self.prev.features_mask
         mask_list = []
         for elm in prev_mask:
-            mask_list.append(elm * cast(nn.Module, self.mod).feat_calc_mask_expander)
+            mask_list.append(elm * getattr(self.mod, self.prefix + 'feat_calc_mask_expander'))
         mask = torch.cat(mask_list, dim=0)
         return mask
 
@@ -173,8 +174,9 @@ class FlattenFeaturesCalculator(FeaturesCalculator):
         self.prev.register(mod, prefix)
         if self.mod is None:
             self.mod = mod
-            mod.register_buffer('feat_calc_multiplier', self.multiplier)
-            mod.register_buffer('feat_calc_mask_expander', self.mask_expander)
+            self.prefix = prefix
+            mod.register_buffer(prefix + 'feat_calc_multiplier', self.multiplier)
+            mod.register_buffer(prefix + 'feat_calc_mask_expander', self.mask_expander)
 
 
 class ConcatFeaturesCalculator(FeaturesCalculator):
